@@ -418,12 +418,23 @@ def judge_flow(ctx, r):
         served_other = (sc.get("status") or {}).get(orig)
         jin.append({"served_valid": (a["status"] == "valid" and orig in sc["valid"]) or
                     (served_other is not None and a["status"] == served_other),
+                    "_other_status": served_other is not None and a["status"] == served_other and served_other != "valid",
                     "configured_type": ctype or "",
                     "offered": offered, "hook_types": [flow.hook_args(h).get("type", "") for h, _, _, _ in mine],
                     "hook_ident_ok": ident_ok, "proof_ok": proof_ok, "hook_failed": failed,
                     "ready_posts": len(my_ready), "ready_after_hooks": after})
         metas.append((aid, orig))
+    # an authorization served invalid / deactivated / expired / revoked is neither "pending" nor "already valid":
+    # the statement says nothing about hooks for it — the run is judged with those authorizations read as
+    # finished (no hook, no ready POST) and as pending, and must satisfy one of the two readings
+    other = [j.pop("_other_status") for j in jin]
     v = vlib.model([{"op": "c05_judge", "authzs": jin}])[0]
+    if any(other) and not v.get("holds"):
+        alt = [dict(j, served_valid=False) if o else j for j, o in zip(jin, other)]
+        v2 = vlib.model([{"op": "c05_judge", "authzs": alt}])[0]
+        if v2.get("holds"):
+            v = v2
+            ctx.count("flow:other-status-read-as-pending")
     ctx.case({k: sc.get(k) for k in ("ids", "offered", "valid", "fail_hook", "authz_order", "challenge_order", "status", "shape",
                                      "offered_for", "hook2", "rollover_from", "wildcard_false", "key_type")})
     ctx.count("flow:authzs", len(jin))
